@@ -49,7 +49,9 @@ RECURSIVE Ways(_, _, _)
 Ways(sz, i, r) == IF r = 0 THEN 1 ELSE IF i > Len(sz) THEN 0
                   ELSE FoldSet(LAMBDA c, a : a + Ways(sz, i + 1, r - c * sz[i]), 0, 0..(r \div sz[i]))
 (*  at most 3 edges, n >= 6: the edgeless graph, K2, P3, 2K2, K3, P4, K1,3, P3+K2, 3K2 (each padded with isolated vertices)                   *)
-ClassCount(pred, n) == IF pred = "maxdeg1" THEN n \div 2 + 1 ELSE IF pred = "maxedges3" THEN 9 ELSE IF n < 2 THEN 1 ELSE Ways(CompSizes(n), 1, n)
+(*  complete multipartite graphs on n vertices <-> partitions of n into the sizes of the parts *)
+PartNum == <<1, 1, 2, 3, 5, 7, 11, 15, 22, 30, 42, 56, 77>>
+ClassCount(pred, n) == IF pred = "cmulti" THEN PartNum[n + 1] ELSE IF pred = "maxdeg1" THEN n \div 2 + 1 ELSE IF pred = "maxedges3" THEN 9 ELSE IF n < 2 THEN 1 ELSE Ways(CompSizes(n), 1, n)
 
 AllYields(e) == UNION { { e.yields[a][k] : k \in 1..Len(e.yields[a]) } : a \in 1..Len(e.yields) }
 Total(e)     == FoldLeft(LAMBDA s, sh : s + Len(sh), 0, e.yields)
@@ -80,7 +82,7 @@ JudgeBig(e) ==
     ELSE IF \E i \in 1..Len(e.dups) : LET d == e.dups[i] IN IsPermSeq(d.p, n) /\ d.a.e # d.b.e /\ Relabel(GofY(n, d.a), d.p) = GofY(n, d.b)
          THEN "two yielded graphs are isomorphic (witness permutation checked)"
     ELSE IF e.counts[1] # e.counts[2] \/ e.counts[1] # e.counts[3] THEN "preprune, prune and sharded searches yield different numbers of graphs"
-    ELSE IF (e.pred \in {"maxdeg1", "maxdeg2"} \/ (e.pred = "maxedges3" /\ n >= 6)) /\ e.counts[1] # ClassCount(e.pred, n) THEN "the pruned search does not yield as many graphs as there are classes satisfying the predicate (closed form)"
+    ELSE IF (e.pred \in {"maxdeg1", "maxdeg2"} \/ (e.pred = "cmulti" /\ n <= 12) \/ (e.pred = "maxedges3" /\ n >= 6)) /\ e.counts[1] # ClassCount(e.pred, n) THEN "the pruned search does not yield as many graphs as there are classes satisfying the predicate (closed form)"
     ELSE ""
 
 (* the number of graphs on n vertices up to isomorphism (OEIS A000088; n <= 7 is also what NumClasses computes by Burnside's lemma), *)
